@@ -48,6 +48,18 @@ func init() {
 
 func runC11(c *core.Ctx) {
 	eh := ehPkg + ".(*EventHandler)."
+	// a fee-recipient update rewrites the owner's record: it must start from the stored record (read
+	// through the transaction), otherwise the registration nonce kept in the same record is wiped
+	if f := fn(c, "C11-R1", eh+"handleFeeRecipientAddressUpdated"); f != nil {
+		k := 0
+		for _, s := range callsIn(f, "ssv/registry/storage.Recipients.SaveRecipientData") {
+			k++
+			arg := s.Arg(c, len(s.Instr.Common().Args)-1).String()
+			c.Decide(strings.Contains(arg, "ssv/registry/storage.Recipients.GetRecipientData(p0.nodeStorage, p1, p2.Owner)#0"), "C11-R1", "handleFeeRecipientAddressUpdated|saves the stored record updated in place", c.P.Pos(s.Instr.Pos()), clip(arg),
+				"the record saved for the owner is "+clip(arg)+": it is not derived from the stored record, so the owner's registration nonce is reset and later ValidatorAdded events are judged against the wrong nonce")
+		}
+		c.Min("C11-R1", k, 1, "SaveRecipientData in handleFeeRecipientAddressUpdated")
+	}
 	// ---------------- R1
 	hva := eh + "handleValidatorAdded"
 	nonce := "ssv/registry/storage.Recipients.GetNextNonce(p0.nodeStorage, p1, p2.Owner)"
@@ -258,6 +270,14 @@ func checkStorageForwarding(c *core.Ctx) int {
 				fmt.Sprintf("%s passes %s to %s instead of the handle it was given: the operation leaves the caller's transaction", encl, clip(node.String()), ta.label))
 		}
 	}
+	n += checkNoHandleBypass(c, "C11-R5")
+	return n
+}
+
+// checkNoHandleBypass: inside a registry / operator storage function that was given a database
+// handle, no read or write is issued on the Database itself (only on db.Using(h) / db.UsingReader(h)).
+func checkNoHandleBypass(c *core.Ctx, rule string) int {
+	n := 0
 	// no data access may bypass the handle: inside a function that was given a handle, a read or write
 	// issued on the Database itself (not on db.Using(h) / db.UsingReader(h)) sees only committed state
 	// and writes outside the caller's transaction
@@ -286,7 +306,7 @@ func checkStorageForwarding(c *core.Ctx) int {
 					}
 					n++
 					direct := nt.Obj().Name() == "Database"
-					c.Decide(!direct, "C11-R5", enclName(f)+"|"+ci.Common().Method.Name()+"|through-the-handle", c.P.Pos(in.Pos()), "issued on "+nt.Obj().Name(),
+					c.Decide(!direct, rule, enclName(f)+"|"+ci.Common().Method.Name()+"|through-the-handle", c.P.Pos(in.Pos()), "issued on "+nt.Obj().Name(),
 						enclName(f)+" was given a database handle but issues "+ci.Common().Method.Name()+" on the Database itself: the access bypasses the caller's transaction (reads miss its uncommitted writes, writes escape its rollback)")
 				}
 			}
